@@ -223,8 +223,144 @@ def rule_frame(repo, rep):
       rep.derived(R, key, site(fs),
                   sample=dict(rule=R, estimator=sup, gathers=len(dom.gathers)))
 
+class KnownDomain(TagDomain):
+  """Which values of the data array reach the learner: 'Xall' = may depend on
+  the feature values of every row (unlabelled ones included); a gather with a
+  mask `labels != -1` / `labels >= 0` or with indices returned by a
+  Constraints generator (restricted to known labels: FRAME rule) gives
+  'Xknown'.  .shape[1] / .shape[-1] carry nothing; .shape[0] / len() carry
+  'nrows' (the number of rows counts the unlabelled points)."""
+  GEN = ('positive_negative_pairs', 'chunks', 'generate_knntriplets')
+
+  def __init__(self, core_keys):
+    super().__init__()
+    self.core_keys = core_keys
+    self.sinks = []     # (what, tags, site)
+
+  def summary(self, target, args, kwargs, node, st):
+    if target.name == '_prepare_inputs' and target.cls is not None:
+      x = args[1] if len(args) > 1 else kwargs.get('X')
+      y = args[2] if len(args) > 2 else kwargs.get('y')
+      if y is None:
+        return x
+      return V(self._u(x, y), elts=(x, y))
+    if target.key in self.core_keys and len(self.eng.stack) >= 1 and \
+            self.eng.stack[0].key != target.key:
+      self.sinks.append(('argument of ' + target.qualname,
+                         self._u(*args[1:], *kwargs.values()),
+                         self.site(node)))
+      return V(EMPTY)
+    return None
+
+  def call_result(self, func, ret, node, st):
+    if func.cls is not None and func.cls.name == 'Constraints' and \
+            func.name in self.GEN:
+      def mark(v):
+        return V(self._u(v) | {'gen'},
+                 elts=None if v.elts is None else tuple(mark(e)
+                                                        for e in v.elts))
+      return mark(ret)
+    return ret
+
+  def compare(self, ops, vals, node, st):
+    t = self._u(*vals)
+    if len(ops) == 1 and len(vals) == 2 and 'lab' in self._u(vals[0]):
+      c = vals[1].const() if vals[1].c is not NOCONST else NOCONST
+      if (isinstance(ops[0], ast.NotEq) and c == -1) or \
+              (isinstance(ops[0], ast.GtE) and c == 0) or \
+              (isinstance(ops[0], ast.Gt) and c == -1):
+        return t | {'knownmask'}
+    return t
+
+  def attr(self, v, name, node, st):
+    if name == 'shape':
+      return frozenset(['shape']) if self._u(v) & {'Xall', 'nrows'} else \
+          self._u(v) - {'Xknown'}
+    if name in ('dtype', 'ndim'):
+      return EMPTY
+    return self._u(v)
+
+  def subscript(self, v, idx, node, st):
+    tv = self._u(v)
+    if 'shape' in tv:
+      if len(idx) == 1 and idx[0][0] == 'expr' and \
+              idx[0][1].c is not NOCONST and idx[0][1].const() in (1, -1):
+        return EMPTY
+      return frozenset(['nrows'])
+    ti = self._u(*self._idx_vals(idx))
+    if 'Xall' in tv and idx and idx[0][0] == 'expr' and \
+            self._u(idx[0][1]) & {'knownmask', 'gen'}:
+      return (tv - {'Xall'}) | {'Xknown'} | (ti - {'knownmask', 'gen'})
+    return tv | (ti - {'knownmask', 'gen'})
+
+  def ext_call(self, dotted, args, kwargs, node, st, eng):
+    t = self._u(*args, *kwargs.values())
+    if dotted == 'len' and t & {'Xall'}:
+      return frozenset(['nrows'])
+    return t - {'knownmask'}
+
+  def method_call(self, recv, name, args, kwargs, node, st, eng):
+    t = self._u(recv, *args, *kwargs.values()) - {'knownmask'}
+    # a library estimator fitted in place remembers what it was fitted on
+    if name in ('fit', 'partial_fit', 'fit_transform') and \
+            isinstance(node.func, ast.Attribute) and \
+            isinstance(node.func.value, ast.Name) and \
+            node.func.value.id in st.vars:
+      old = st.vars[node.func.value.id]
+      st.vars[node.func.value.id] = V(self._u(old) | t, c=old.c, ty=old.ty,
+                                      obj=old.obj, fn=old.fn)
+    return t
+
+  def on_store_attr(self, objv, attr, val, node, st):
+    super().on_store_attr(objv, attr, val, node, st)
+    if objv.obj is not None and objv.obj.oid == 'self' and \
+            attr == 'components_':
+      self.sinks.append(('self.components_', self._u(val), self.site(node)))
+
+
+def rule_unlabelled(repo, rep):
+  R = 'R-FLOW:unlabelled-points-do-not-reach-the-learner'
+  rep.rule(R, 'in X_Supervised.fit the feature values of the prepared data '
+           'reach the base algorithm (arguments of the shared _fit, or the '
+           'stored components_ for RCA) only through gathers restricted to '
+           'known labels: X[<indices from a Constraints generator>] or '
+           'X[<labels != -1>]; the number of rows is not used either')
+  n_sup = 0
+  for sup, base in PAIRS:
+    cs = repo.get_class(sup)
+    fs = repo.resolve_method(cs, 'fit')
+    cb = repo.get_class(base)
+    core = repo.resolve_method(cs, '_fit')
+    core_keys = set([core.key]) if core is not None else set()
+    dom = KnownDomain(core_keys)
+    eng = Engine(repo, dom, self_cls=cs)
+    params = fs.params()
+    args = {params[1]: V(frozenset(['Xall'])),
+            params[2]: V(frozenset(['lab']))}
+    eng.run(fs, args=args)
+    key = sup + '.fit'
+    n_sup += bool(dom.sinks)
+    if not dom.sinks:
+      rep.unknown(R, key, site(fs), 'no hand-off to the base algorithm found')
+      continue
+    bad = [(w, t, s_) for (w, t, s_) in dom.sinks if t & {'Xall', 'nrows'}]
+    seen = set()
+    for (w, t, s_) in bad:
+      if (w, s_) in seen:
+        continue
+      seen.add((w, s_))
+      rep.refuted(R, key + ':' + w, s_, '%s depends on %s' % (
+          w, 'the feature values of all rows of X, unlabelled ones included'
+          if 'Xall' in t else 'the number of rows of X, unlabelled ones '
+          'included'))
+    if not bad:
+      rep.derived(R, key, site(fs), sample=dict(
+          rule=R, estimator=sup, sinks=[w for (w, t, s_) in dom.sinks]))
+  rep.floor('supervised fits with a hand-off to the base algorithm', n_sup, 6)
+
 
 def check(repo, rep, tier):
   rule_core(repo, rep)
   rule_frame(repo, rep)
+  rule_unlabelled(repo, rep)
   c18.rule_ctor(repo, rep, only=[p[0] for p in PAIRS])
